@@ -28,6 +28,8 @@ for ln in st:
         git("rm", "-f", "--cached", path); 
         if os.path.exists(path): os.remove(path)
         print("dropped", path)
+    elif path.startswith("evidence/") and ("U" in code or code == "AA"):
+        git("checkout", "--theirs", path); git("add", path); print("took theirs", path)
     elif path.startswith("harness/cmd/probe/"):
         git("rm", "-f", path); print("dropped", path)
 print(git("status", "--porcelain").stdout)
